@@ -554,3 +554,17 @@ def guards_of(node, stop=None, asserts=True):
             elif isinstance(s, ast.Assert) and asserts:
                 out.append((s.test, True))
     return out
+
+
+def branch_guards(node, stop=None):
+    """Conditions of the enclosing if / elif / else branches only (no earlier early exits, no asserts): [(test, polarity)]."""
+    out = []
+    child, parent = node, getattr(node, "_parent", None)
+    while parent is not None and parent is not stop and not isinstance(parent, (ast.FunctionDef, ast.AsyncFunctionDef, ast.Lambda, ast.ClassDef, ast.Module)):
+        if isinstance(parent, (ast.If, ast.While)):
+            if any(child is s for s in parent.body):
+                out.append((parent.test, True))
+            elif any(child is s for s in parent.orelse):
+                out.append((parent.test, False))
+        child, parent = parent, getattr(parent, "_parent", None)
+    return out
